@@ -357,8 +357,10 @@ def validate_chunk(module, cfg, chunk_path, workdir, timeout):
         # one retry (a rejection / failure is only believed if it repeats)
         r = run_tlc(module, cfg, workdir, env={"TRACE": chunk_path, "VERDICT": verdict}, timeout=timeout)
     if r["rc"] != 0 or not os.path.exists(verdict):
-        tail = r["out"][-2500:]
-        raise ToolFailure(f"TLC failed on {chunk_path} (rc={r['rc']}):\n{tail}")
+        out = r["out"]
+        i = out.find("Error:")
+        head = out[i:i + 1500] if i >= 0 else ""
+        raise ToolFailure(f"TLC failed on {chunk_path} (rc={r['rc']}):\n{head}\n[...]\n{out[-1200:]}")
     v = json.load(open(verdict))
     if v["consumed"] != v["lines"]:
         raise ToolFailure(f"trace {chunk_path} not fully consumed: {v['consumed']}/{v['lines']}")
